@@ -58,6 +58,9 @@ def K(e):
 // a mutation that must be rejected because v is frozen.
 const opsSrc = `
 def op_str(v): return str(v)
+def op_forward_star(v): return scribble(*v)
+def op_forward_star_more(v): return scribble(0, *v)
+def op_forward_starstar(v): return scribble(**v)
 def op_repr(v): return repr(v)
 def op_key(v): return {v: 1}
 def op_member(v): return v in {1: 1, "s": 2}
@@ -184,7 +187,19 @@ func (o opCase) String() string {
 }
 
 func predeclared() starlark.StringDict {
-	return starlark.StringDict{"struct": starlark.NewBuiltin("struct", starlarkstruct.Make), "json": json.Module}
+	return starlark.StringDict{"struct": starlark.NewBuiltin("struct", starlarkstruct.Make), "json": json.Module,
+		// a built-in of the application that uses the argument arrays it is given as scratch
+		// space (it owns them: the interpreter hands every built-in fresh arrays)
+		"scribble": starlark.NewBuiltin("scribble", func(_ *starlark.Thread, _ *starlark.Builtin, args starlark.Tuple, kwargs []starlark.Tuple) (starlark.Value, error) {
+			n := len(args) + len(kwargs)
+			for i := range args {
+				args[i] = starlark.None
+			}
+			for i := range kwargs {
+				kwargs[i][0], kwargs[i][1] = starlark.String("scribbled"), starlark.None
+			}
+			return starlark.MakeInt(n), nil
+		})}
 }
 
 func init() {
